@@ -251,6 +251,24 @@ pub fn structural_probes() -> Vec<Probe> {
         let twin = format!("{PRELUDE}\nfn need<'gc, T: Collect<'gc>>() {{}}\nfn probe<'gc>() {{ need::<'gc, Option<Gc<'gc, i32>>>(); need::<'gc, std::cell::Cell<i32>>(); need::<'gc, &'static i32>(); }}\nfn main() {{}}\n");
         v.push(Probe { name: format!("static_only_{}", v.len()), class: format!("static-only-Collect|{n}"), negative: neg, twin });
     }
+    // type parameters a provided Collect impl does not trace (hashers) must be 'static: a branded
+    // reference parked there would be stored in the heap without ever being traced
+    let untraced: [(&str, &str, &str); 7] = [
+        ("std HashMap hasher", "std::collections::HashMap<u8, u8, {S}>", "std::hash::RandomState"),
+        ("std HashSet hasher", "std::collections::HashSet<u8, {S}>", "std::hash::RandomState"),
+        ("hashbrown HashMap hasher", "hashbrown::HashMap<u8, u8, {S}>", "std::hash::RandomState"),
+        ("hashbrown HashSet hasher", "hashbrown::HashSet<u8, {S}>", "std::hash::RandomState"),
+        ("indexmap IndexMap hasher", "indexmap::IndexMap<u8, u8, {S}>", "std::hash::RandomState"),
+        ("indexmap IndexSet hasher", "indexmap::IndexSet<u8, {S}>", "std::hash::RandomState"),
+        ("Static payload", "Static<{S}>", "u8"),
+    ];
+    for (n, ty, ok) in untraced {
+        for (bn, bad) in [("branded-reference", "&'gc std::cell::Cell<u8>"), ("Gc", "Gc<'gc, u8>"), ("Mutation-reference", "&'gc Mutation<'gc>")] {
+            let neg = format!("{PRELUDE}\nfn need<'gc, T: Collect<'gc>>() {{}}\nfn probe<'gc>() {{ need::<'gc, {}>(); }}\nfn main() {{}}\n", ty.replace("{S}", bad));
+            let twin = format!("{PRELUDE}\nfn need<'gc, T: Collect<'gc>>() {{}}\nfn probe<'gc>() {{ need::<'gc, {}>(); }}\nfn main() {{}}\n", ty.replace("{S}", ok));
+            v.push(Probe { name: format!("untraced_param_{}", v.len()), class: format!("untraced-parameter-must-be-static|{n}|{bn}"), negative: neg, twin });
+        }
+    }
     v
 }
 
